@@ -340,14 +340,18 @@ def sat(t):
 
     else: return None
 
+# saturation pressure at the critical temperature (slightly above pcritical,
+# as the saturation equation does not reproduce the critical pressure exactly):
+psat_critical = max(sat(tcritical), pcritical)
+
 #------------------------------------------------------------------------
 
 def tsat(p):
     """Saturation temperature (deg C) as a function of pressure.  Returns
     false if called outside its operating range (611.213 Pa <= p <=
-    critical pressure)."""
+    saturation pressure at the critical temperature)."""
 
-    if 611.213 <= p <= pcritical:
+    if 611.213 <= p <= psat_critical:
 
         beta2 = sqrt(p / pstar4)
         beta = sqrt(beta2)
